@@ -1,7 +1,8 @@
 import Ctap.Decode
 import Ctap.Request
 import Ctap.Frame
-import Gen
+import Props.GenTables
+import Spec
 /-
   Line-protocol driver: evaluates the executable model on the case lines the correspondence
   check also feeds to the real implementation.  One case per line in, one outcome per line out.
@@ -96,90 +97,160 @@ def readVal (s : String) : Option Val :=
   | some (v, []) => some v
   | _ => none
 
-/-! ### generated data per configuration -/
+/-! ### data sources: the model runs on `Gen` (regenerated from /repo), the oracle on `Spec` -/
 
-def cfgTypes : String → Option (List (String × Ty) × List (String × Ty))
-  | "000" => some (Gen.S000.types, Gen.S000.roles)
-  | "001" => some (Gen.S001.types, Gen.S001.roles)
-  | "010" => some (Gen.S010.types, Gen.S010.roles)
-  | "011" => some (Gen.S011.types, Gen.S011.roles)
-  | "100" => some (Gen.S100.types, Gen.S100.roles)
-  | "101" => some (Gen.S101.types, Gen.S101.roles)
-  | "110" => some (Gen.S110.types, Gen.S110.roles)
-  | "111" => some (Gen.S111.types, Gen.S111.roles)
+structure Source where
+  reqRoles : Cfg → List (String × Ty)
+  respRoles : Cfg → List (String × Ty)
+  adExtRoles : Cfg → List (String × Ty)
+  reqTables : Cfg → ReqTables
+  respHasBody : String → Option Bool
+  statusSerializeError : Nat
+  opCase : Nat → String          -- `Operation::try_from(b)` then `into_u8`
+  vopCase : Nat → String         -- `VendorOperation::try_from(b)`
+
+def specReqTables (c : Cfg) : ReqTables :=
+  -- byte ranges straight from `Spec.cmdClass`: one arm per byte, variant index = byte
+  { opTryFrom := (List.range 256).map (fun b => (b, b, some b)),
+    vendorArms := [], vendorTryFrom := [],
+    opSwitch := (List.range 256).map (fun b => (b, (Spec.cmdClass b).kind.1, (Spec.cmdClass b).kind.2)),
+    emptyGuard := true,
+    statusInvalidCommand := Spec.statusInvalidCommand, statusMissing := Spec.statusMissingParameter,
+    statusOther := Spec.statusInvalidCbor,
+    reqTy := fun v => (Spec.reqRoles c).lookup v }
+
+def genOpCase (b : Nat) : String :=
+  match opOfByte Gen.opTryFrom Gen.opTryFromVendorArms Gen.vendorTryFrom b with
+  | none => "err"
+  | some i =>
+    match opToByte Gen.opInto i b with
+    | some back => s!"ok {Gen.operations.getD i "?"} {back}"
+    | none => "panic"
+
+def genVopCase (b : Nat) : String :=
+  match firstMatch Gen.vendorTryFrom b with
+  | some _ => s!"ok {b}"
+  | none => "err"
+
+def specOpCase (b : Nat) : String :=
+  match Spec.opName b with
+  | some n => s!"ok {n} {b}"
+  | none => "err"
+
+def specVopCase (b : Nat) : String := if 0x40 ≤ b ∧ b ≤ 0x7F then s!"ok {b}" else "err"
+
+def genSource : Source :=
+  { reqRoles := Gen.reqRoles, respRoles := Gen.respRoles, adExtRoles := Gen.adExtRoles,
+    reqTables := Gen.reqTables, respHasBody := fun v => Gen.respSwitch.lookup v,
+    statusSerializeError := Gen.statusSerializeError, opCase := genOpCase, vopCase := genVopCase }
+
+def specSource : Source :=
+  { reqRoles := Spec.reqRoles, respRoles := Spec.respRoles, adExtRoles := Spec.adExtRoles,
+    reqTables := specReqTables,
+    respHasBody := fun v => Spec.respHasBody.lookup v,
+    statusSerializeError := Spec.statusOther, opCase := specOpCase, vopCase := specVopCase }
+
+def parseCfg (s : String) : Option Cfg :=
+  match s.toList with
+  | [a, b, c] =>
+    if (a = '0' ∨ a = '1') ∧ (b = '0' ∨ b = '1') ∧ (c = '0' ∨ c = '1') then
+      some ⟨a = '1', b = '1', c = '1'⟩ else none
   | _ => none
 
-def tyOf (cfg name : String) : Option Ty := do
-  let (ts, rs) ← cfgTypes cfg
-  match ts.lookup name with
-  | some t => some t
-  | none => rs.lookup name
+def Ty.child : Ty → Nat → Option Ty
+  | .vec _ t, 0 => some t
+  | .filtered _ _ _ _ e, 0 => some e
+  | .indexed _ fs, i => (fs.nth i).map (·.2)
+  | .text fs, i => (fs.nth i).map (·.2)
+  | .untagged fs, i => (fs.nth i).map (·.2)
+  | _, _ => none
 
-def reqTables (cfg : String) : ReqTables :=
-  { opTryFrom := Gen.opTryFrom, vendorArms := Gen.opTryFromVendorArms,
-    vendorTryFrom := Gen.vendorTryFrom, opSwitch := Gen.opSwitch,
-    emptyGuard := Gen.opSwitchEmptyGuard,
-    statusInvalidCommand := Gen.statusInvalidCommand, statusMissing := Gen.statusMissing,
-    statusOther := Gen.statusOtherCbor,
-    reqTy := fun v => tyOf cfg ("req" ++ v) }
+def walk : Ty → List Nat → Option Ty
+  | t, [] => some t
+  | t, i :: rest => match Ty.child t i with | some c => walk c rest | none => none
+
+/-- type reference `req:MakeCredential/6/0` = role, then child indices -/
+def tyRef (src : Source) (c : Cfg) (ref : String) : Option Ty := do
+  let parts := ref.splitOn "/"
+  let head ← parts.head?
+  let idxs ← parts.tail.mapM (fun s => s.toNat?)
+  let root ← match head.splitOn ":" with
+    | ["req", v] => (src.reqRoles c).lookup v
+    | ["resp", v] => (src.respRoles c).lookup v
+    | ["adext", v] => (src.adExtRoles c).lookup v
+    | _ => none
+  walk root idxs
 
 def showErr : DErr → String
   | .missing => "err missing"
   | .other => "err other"
   | .panic => "panic"
 
-def respHasBody (variant : String) : Option Bool := Gen.respSwitch.lookup variant
-
 def respRole (variant : String) : String :=
-  if variant = "GetNextAssertion" then "respGetAssertion" else "resp" ++ variant
+  if variant = "GetNextAssertion" then "GetAssertion" else variant
 
-def handle (line : String) : String :=
+def handle (src : Source) (line : String) : String :=
   match line.trimAscii.toString.splitOn " " with
   | ["dec", cfg, ty, hex] =>
-    (match tyOf cfg ty, fromHex hex with
-     | some t, some bs =>
-       (match decode t bs with
-        | .ok (v, _) => "ok " ++ showVal v
-        | .error e => showErr e)
-     | _, _ => "bad-case")
+    (match parseCfg cfg with
+     | none => "bad-case"
+     | some c =>
+       match tyRef src c ty, fromHex hex with
+       | some t, some bs =>
+         (match decode t bs with
+          | .ok (v, _) => "ok " ++ showVal v
+          | .error e => showErr e)
+       | _, _ => "bad-case")
   | ["enc", cfg, ty, val] =>
-    (match tyOf cfg ty, readVal val with
-     | some t, some v => toHex (encode t v)
-     | _, _ => "bad-case")
+    (match parseCfg cfg with
+     | none => "bad-case"
+     | some c =>
+       match tyRef src c ty, readVal val with
+       | some t, some v => let b := encode t v; if b.isEmpty then "-" else toHex b
+       | _, _ => "bad-case")
   | ["req", cfg, hex] =>
-    (match fromHex hex with
-     | some bs =>
-       (match requestDeserialize (reqTables cfg) bs with
+    (match parseCfg cfg, fromHex hex with
+     | some c, some bs =>
+       (match requestDeserialize (src.reqTables c) bs with
         | .ok variant none => s!"ok {variant} -"
         | .ok variant (some v) => s!"ok {variant} {showVal v}"
         | .err st => s!"err {st}"
         | .panic => "panic")
-     | none => "bad-case")
+     | _, _ => "bad-case")
   | ["resp", cfg, variant, val, cap, prior] =>
-    (match respHasBody variant, cap.toNat?, fromHex prior with
-     | some hasBody, some cap, some prior =>
+    (match parseCfg cfg, src.respHasBody variant, cap.toNat?, fromHex prior with
+     | some c, some hasBody, some cap, some prior =>
        let chunks : Option (Option (List (List Byte))) :=
          if hasBody then
-           (match tyOf cfg (respRole variant), readVal val with
+           (match (src.respRoles c).lookup (respRole variant), readVal val with
             | some t, some v => some (some [encode t v])
             | _, _ => none)
          else some none
        (match chunks with
         | none => "bad-case"
         | some cs =>
-          (match responseSerialize (UInt8.ofNat Gen.statusSerializeError) cs cap prior with
+          (match responseSerialize (UInt8.ofNat src.statusSerializeError) cs cap prior with
            | .ret b => toHex b
            | .panic => "panic"
            | .ub => "panic"))
-     | _, _, _ => "bad-case")
+     | _, _, _, _ => "bad-case")
+  | ["op", b] =>
+    (match b.toNat? with
+     | some b => src.opCase b
+     | none => "bad-case")
+  | ["vop", b] =>
+    (match b.toNat? with
+     | some b => src.vopCase b
+     | none => "bad-case")
   | _ => "bad-case"
 
-partial def loop (h : IO.FS.Stream) (out : IO.FS.Stream) : IO Unit := do
+partial def loop (src : Source) (h : IO.FS.Stream) (out : IO.FS.Stream) : IO Unit := do
   let line ← h.getLine
   if line.isEmpty then return ()
-  out.putStrLn (handle line)
-  loop h out
+  out.putStrLn (handle src line)
+  loop src h out
 
-def main : IO Unit := do
+def main (args : List String) : IO Unit := do
   let out ← IO.getStdout
-  loop (← IO.getStdin) out
+  let src := if args.contains "--oracle" then specSource else genSource
+  loop src (← IO.getStdin) out
